@@ -588,8 +588,21 @@ def check_member(ctx, mlog, pid):
     steps = [s for s in render_steps(mlog) if s["snap"] is not None]  # (what client.close() stirs up at the very end is not inspected)
     scn = {"cfg": list(mlog.cfg), "events": [s["ev"] for s in steps]}
     ml = S.model_lines(scn)
-    mo = S.monitor_lines(scn, steps, pid)
-    ans = ctx.model("group", ml + mo)
+    ans = ctx.model("group", ml)
+    # at a non-quiescent point (inside a reactor callback: `_rejoin_d` not yet assigned, a LoopingCall mid-call,
+    # consumers mid-shutdown; see MemberLog._close_step) the object state is not an observable state: the
+    # monitors get the model's snapshot there.  The observations of every step, and the snapshot at every
+    # quiescent point, are the implementation's and are compared with the model's below.
+    msteps = []
+    for i, s in enumerate(steps):
+        s2 = dict(s)
+        if not s["quiescent"]:
+            _, msnap, _ = S.split_model_answer(ans[1 + i])
+            if msnap:
+                s2["snap"] = msnap
+        msteps.append(s2)
+    mo = S.monitor_lines(scn, msteps, pid)
+    ans = ans + ctx.model("group", mo)
     dis = None
     for i, s in enumerate(steps):
         obs, snap, st = S.split_model_answer(ans[1 + i])
